@@ -9,6 +9,7 @@ CEV = ["c0", "c1"]
 MODES = {"mq": {"start": "q1", "wq": True}, "mqc": {"start": "q2", "wq": True},
          "mp": {"start": "q3", "wq": False}, "mr": {"start": None, "wq": False}}
 MSTART = ["mode_mq_starting", "mode_mqc_starting", "mode_mp_starting"]
+MSTOP = ["mode_mq_stopping", "mode_mqc_stopping", "mode_mp_stopping"]
 GMODES = ["gm1", "gm2", "gm3"]
 GEV = ["ball_starting", "ball_ending", "game_ending", "mode_game_stopping"] + \
       ["mode_%s_starting" % m for m in GMODES] + ["mode_%s_stopping" % m for m in GMODES]
@@ -50,6 +51,7 @@ class Inst:
         self.false_seen = False   # boolean
         self.on_done = None
         self.stuck_exempt = False  # MPF-internal handlers may hold this instance without us seeing it
+        self.queues = []           # [(hkey, QueuedEvent)] the queue objects handed to handlers of this instance
 
     def __repr__(self):
         return "<%s#%s %s>" % (self.name, self.iid, self.typ)
@@ -153,6 +155,10 @@ class World:
         if inst.waits:
             self.ctx.violation("overlap", inst.name, "handler %r of %r entered while waits %r of earlier handlers "
                                "are outstanding" % (hkey, inst, sorted(inst.waits.values())))
+        locked = self.locked_queues(inst)
+        if locked:
+            self.ctx.violation("overlap", inst.name, "handler %r of %r entered while the QueuedEvent handed to "
+                               "earlier handler(s) %r still carries a wait" % (hkey, inst, locked))
         if any(e[0] == hkey for e in inst.entries):
             self.ctx.violation("order", "handler twice", "handler %r ran twice for %r" % (hkey, inst))
         if inst.entries and prio is not None:
@@ -175,6 +181,15 @@ class World:
         self.progress(inst)
         if sum(1 for i in self.all if not i.done and i.typ == "queue" and i.entries) >= 2:
             self.ctx.probe("concurrent_queue_events")
+
+    def locked_queues(self, inst):
+        """Handlers of `inst` whose QueuedEvent object still carries a wait (whoever registered it, e.g. Mode.start).
+
+        Direct observation of "an earlier handler's wait is outstanding".  A queue which a handler forwarded to a
+        nested event is shared with that event's handlers and says nothing about this instance: skipped.
+        """
+        shared = getattr(self, "shared_queues", ())
+        return [hk for hk, q in inst.queues if q.waiter and not any(q is x for x in shared)]
 
     def wait_begin(self, inst, wid, desc):
         self.tick("wait")
@@ -225,6 +240,10 @@ class World:
         if inst.waits:
             self.ctx.violation("callback_before_clear", inst.name, "completion callback of %r fired while waits %r "
                                "are outstanding" % (inst, sorted(inst.waits.values())))
+        locked = self.locked_queues(inst)
+        if locked:
+            self.ctx.violation("callback_before_clear", inst.name, "completion callback of %r fired while the "
+                               "QueuedEvent handed to handler(s) %r still carries a wait" % (inst, locked))
         entered = {e[0] for e in inst.entries}
         if not (inst.typ == "boolean" and inst.false_seen):
             missing = [h for h in self.required_handlers(inst, seq) if h not in entered]
@@ -259,7 +278,7 @@ class World:
 
     # ------------------------------------------------------------------ attribution of observations
     def attribute(self, evname, kwargs):
-        if evname in MSTART:
+        if evname in MSTART or evname in MSTOP:
             inst = self.sys_inflight.get(evname)
         elif "iid" in kwargs:
             inst = self.insts.get(kwargs["iid"])
@@ -275,6 +294,7 @@ class World:
     def setup(self):
         from sim.tap import tap_events
         self.empty_inflight = {}
+        self.mode_stopped_t = {}
         self.shared_queues = []      # QueuedEvents forwarded to a nested queue event (identity list, no hashing)
         self.waited_queues = []      # QueuedEvents on which one of our handlers already waited once
         self.qep2_used = False
@@ -291,7 +311,7 @@ class World:
         self.pseudo_prio[("relay", "mr")] = None     # mode-scoped player: priority not part of the oracle
         self.names = {}
         for mname in MODES:
-            for ph in ("will_start", "starting", "started", "will_stop", "stopped"):
+            for ph in ("will_start", "starting", "started", "will_stop", "stopping", "stopped"):
                 self.names["mode_%s_%s" % (mname, ph)] = (ph, mname)
         for which, r in RELAYS.items():
             self.names[r["req"]] = ("req", which)
@@ -381,9 +401,12 @@ class World:
                 raise AssertionError("harness: queue handler %d called without queue" % hid)
             inst = self.attribute(spec["ev"], kwargs)
             self.enter(inst, hkey, eff_prio(spec), queue)
+            inst.queues.append((hkey, queue))
             if spec["kind"] == "wait":
                 if spec["ev"] in MSTART:
                     self.ctx.probe("mode_starting_waiter")
+                elif spec["ev"] in MSTOP:
+                    self.ctx.probe("mode_stopping_waiter")
                 if spec.get("rewait"):
                     # legal per the QueuedEvent API: wait, clear, wait again (never double-wait / double-clear)
                     self.ctx.probe("rewait_same_queue")
@@ -706,6 +729,7 @@ class World:
         mname = arg
         self.log("mode", mname, ph)
         if ph == "will_start":
+            busy_before = self.mode_busy_seq[mname]
             s = self.tick("mode")
             self.mode_state[mname] = "starting"
             self.mode_busy_seq[mname] = s
@@ -717,7 +741,23 @@ class World:
                 inst = self.attribute(mc["start"], kwargs)
                 # (no locked-queue check here: whether the mode registers its own wait before or after
                 # posting will_start is an implementation detail)
-                self.enter(inst, ("mode", mname), self.pseudo_prio[("mode", mname)], None)
+                if busy_before >= inst.seq:
+                    # The mode was busy at some time since the event was posted: this may be a start which Mode.start
+                    # put off until the previous stop had cleaned up.  It is then carried out by the mode's stop
+                    # callback, not inside the dispatcher's handler call, i.e. it is not a handler entry (no
+                    # overlap / order judgement); the wait it registers counts from here on.
+                    self.tick("enter")
+                    self.log("enter_deferred", inst.name, inst.iid, ("mode", mname))
+                    self.ctx.probe("mode_start_maybe_deferred")
+                    if not any(e[0] == ("mode", mname) for e in inst.entries):
+                        inst.entries.append((("mode", mname), None, self.seq))
+                    self.progress(inst)
+                else:
+                    self.enter(inst, ("mode", mname), self.pseudo_prio[("mode", mname)], None)
+                inst.queues.append((("mode", mname), q))
+                if self.mode_stopped_t.get(mname) is not None and abs(self.mode_stopped_t[mname] - self.now()) <= EPS:
+                    # the mode restarts in the very instant in which its previous run stopped
+                    self.ctx.probe("mode_restart_in_stop_instant")
                 self.ctx.probe("mode_start_on_queue")
                 if mc["wq"]:
                     self.wait_begin(inst, ("mode", mname), "mode:%s" % mname)
@@ -745,7 +785,17 @@ class World:
             self.mode_state[mname] = "stopping"
             self.mode_busy_seq[mname] = s
             self.mode_nonactive_seq[mname] = s
+        elif ph == "stopping":
+            inst = Inst("S%d" % self.tick("post"), name, "queue", "system", {}, self.now(), self.seq)
+            self.all.append(inst)
+            self.sys_inflight[name] = inst
+            if name in self.ev.registered_handlers:
+                self.ctx.probe("mode_stopping_has_handlers")
         elif ph == "stopped":
+            inst = self.sys_inflight.pop("mode_%s_stopping" % mname, None)
+            if inst is not None:
+                self.complete(inst, {})
+            self.mode_stopped_t[mname] = self.now()
             s = self.tick("mode")
             self.mode_state[mname] = "idle"
             self.mode_busy_seq[mname] = s
